@@ -112,12 +112,16 @@ type opIn struct {
 	Code int         // status code (0 unset, 1 error, 2 ok)
 	Nth  int
 	Task string
+	// Lax: the provider's Shutdown had been invoked before this operation returned (shutdown runs only): an
+	// End of a live span then need not be delivered, a child may come from the no-op tracer
+	Lax bool
 }
 
 type opOut struct {
 	Delivered int    // End: number of OnEnd deliveries this call made per processor (0 or 1 expected)
 	Snap      string // End: encoded delivered snapshot
 	Recording bool   // IsRecording
+	ChildNoop bool   // child: the span that Start returned is not an SDK span (no-op tracer after provider Shutdown)
 }
 
 // curAttrLimit is the AttributeCountLimit of the run being checked (0: the default of 128, never reached).
@@ -140,6 +144,9 @@ func step(stI, inI, outI interface{}) (bool, interface{}) {
 		}
 		n := st.clone()
 		n.Ended = true
+		if out.Delivered == 0 && in.Lax {
+			return true, modelState{n, n.enc()} // ended while the provider was shutting down: nobody left to tell
+		}
 		if out.Delivered != 1 {
 			return false, stI
 		}
@@ -177,7 +184,13 @@ func step(stI, inI, outI interface{}) (bool, interface{}) {
 			}
 		}
 	case "child":
-		n.Children++
+		if out.ChildNoop {
+			if !in.Lax {
+				return false, stI // a no-op child although the provider had not been shut down
+			}
+		} else {
+			n.Children++
+		}
 	}
 	return true, modelState{n, n.enc()}
 }
@@ -344,6 +357,30 @@ type world struct {
 	curEnd  map[string]*opOut
 	hist    []porcupine.Operation
 	endRets map[int][]uint64 // per span: stamps at which End calls returned
+	shutInv uint64           // stamp at which the provider's Shutdown was invoked (0: never)
+}
+
+// endedBeforeShutdown: an End of the span has returned before the provider's Shutdown (if any) was invoked, and
+// no other End of the span was under way at that moment (the call that ends the span is the one that delivers
+// it, and it may be a call that is overtaken by the one that returns first) - the deliveries of such a span
+// are owed in full.
+//
+//go:norace
+func (w *world) endedBeforeShutdown(sp int) bool {
+	owed := false
+	for _, o := range w.hist {
+		in := o.Input.(opIn)
+		if in.Span != sp || in.Kind != "end" {
+			continue
+		}
+		switch {
+		case w.shutInv == 0 || uint64(o.Return) < w.shutInv:
+			owed = true
+		case uint64(o.Call) < w.shutInv:
+			return false // under way when Shutdown was invoked
+		}
+	}
+	return owed
 }
 
 type planOp struct {
@@ -403,6 +440,13 @@ func (engine) Body(r *simdrv.Run) {
 			}
 			plans[t] = append(plans[t], planOp{in: in, sleep: r.Cfg(8) == 0})
 		}
+	}
+	// In one run in six a task shuts the provider down while the others go on (after seeded change C10-j, which
+	// clears the published processor list in place at the end of Shutdown: an End that is walking it panics).
+	if r.Cfg(6) == 0 {
+		t := r.Cfg(nTasks)
+		plans[t][r.Cfg(len(plans[t]))].in.Kind = "provider-shutdown"
+		r.Res.Config["provider_shutdown"] = true
 	}
 	r.Res.Config["spans"] = nSpans
 	r.Res.Config["procs"] = nProcs
@@ -497,7 +541,14 @@ func (engine) Body(r *simdrv.Run) {
 					out.Recording = sp.IsRecording()
 				case "child":
 					_, c := tp.Tracer(fmt.Sprintf("child%d", in.Nth%2)).Start(ctxs[in.Span], "child")
-					_ = c
+					_, isSDK := c.(sdktrace.ReadOnlySpan)
+					out.ChildNoop = !isSDK
+				case "provider-shutdown":
+					if w.shutInv == 0 {
+						w.shutInv = call
+					}
+					r.Fault("provider-shutdown-during-span-ops")
+					_ = tp.Shutdown(context.Background())
 				case "read":
 					if ro, ok := sp.(sdktrace.ReadOnlySpan); ok {
 						switch in.Code {
@@ -546,7 +597,8 @@ func (engine) Body(r *simdrv.Run) {
 				if in.Kind == "end" {
 					w.endRets[in.Span] = append(w.endRets[in.Span], ret)
 				}
-				if in.Kind != "unreg-extra" && in.Kind != "reg-extra" && in.Kind != "read" {
+				in.Lax = w.shutInv != 0
+				if in.Kind != "unreg-extra" && in.Kind != "reg-extra" && in.Kind != "read" && in.Kind != "provider-shutdown" {
 					w.hist = append(w.hist, porcupine.Operation{ClientId: t, Input: in, Call: int64(call), Output: out, Return: int64(ret)})
 				}
 				r.Res.Ops++
@@ -583,7 +635,7 @@ func (engine) Body(r *simdrv.Run) {
 			if n > 1 {
 				r.Violate(prop, "multiple-onend", fmt.Sprintf("multiple-onend/trace=%v", tracing), "span %d was delivered %d times to processor %d (tasks %s and %s, end times %v and %v)", sp, n, pi, per[sp][0].task, per[sp][1].task, per[sp][0].end, per[sp][1].end)
 			}
-			if n == 0 && len(w.endRets[sp]) > 0 {
+			if n == 0 && w.endedBeforeShutdown(sp) {
 				r.Violate(prop, "no-onend", "no-onend", "End of span %d returned but processor %d never received it", sp, pi)
 			}
 			for _, d := range per[sp] {
@@ -621,7 +673,7 @@ func (engine) Body(r *simdrv.Run) {
 		}
 	}
 	for sp, c := range firstEndCall {
-		if len(w.endRets[sp]) == 0 {
+		if !w.endedBeforeShutdown(sp) {
 			continue
 		}
 		for _, x := range lateProcs {
